@@ -30,6 +30,8 @@ class Service(object):
     if s.startswith('APPEXC:'):
       from thrift.Thrift import TApplicationException
       raise TApplicationException(TApplicationException.INTERNAL_ERROR, 'app:' + s)
+    if s.startswith('NONE:'):
+      return None       # a handler that returns nothing for a non-void method: the reply carries no field
     return 'echo:' + s
 
   def add(self, a, b):
@@ -76,6 +78,10 @@ class Service(object):
   def names(self, m):
     self._rec('names', m)
     return sorted(m)
+
+  def leaf(self, s):
+    self._rec('leaf', s)
+    return 'leaf:' + s
 
   def extra(self, *a):
     self._rec('extra', *a)
